@@ -16,6 +16,13 @@
 #include <kernel/geometry/intern/coarse_fine_cell_mapping.hpp>
 #include <kernel/adjacency/graph.hpp>
 
+// GridTransfer::transfer_intermesh_vector_direct did not compile on the pinned tree (it called a non-existing overload of its own
+// name, see spec/proposed_fixes/C18-intermesh-vector-direct-does-not-compile.patch). Decision: not repaired, recorded as observation -
+// a member that cannot be instantiated has no behaviour. The guarded branch below is DEAD on the pinned tree and stays disabled.
+#ifndef C18_HAVE_INTERMESH_VECTOR_DIRECT
+#define C18_HAVE_INTERMESH_VECTOR_DIRECT 0
+#endif
+
 namespace
 {
   /// for every cell of the target trafo: the cells of the source trafo that contain its barycentre (own Newton inversion)
@@ -162,7 +169,7 @@ namespace
       c.check(fin, "assemble_intermesh_transfer: non-finite matrix entry; " + what + "; " + key, "NaN/Inf in the transfer matrix");
       if(vectors)
       {
-        double worst = 0.0, worst_w = 0.0; std::string wn;
+        double worst = 0.0, worst_w = 0.0, worst_d = 0.0; std::string wn;
         for(auto& tv : alphabet(ns))
         {
           VectorType vs(ns), vt(nt, 0.0), vw(nt, 0.0), vd(nt, 0.0);
@@ -178,10 +185,18 @@ namespace
             if(!(e <= worst)) { worst = e; wn = tv.first; }
           }
           if(g1 != 0) worst_w = 1.0;
+#if C18_HAVE_INTERMESH_VECTOR_DIRECT
+          // (target documented as "assumed to be allocated and formatted to 0")
+          vd.format();
+          const int g2 = Assembly::GridTransfer::transfer_intermesh_vector_direct(vd, vs, st, ss, t2s, cub);
+          if(g2 != 0) worst_w = 1.0;
+          for(Index i = 0; i < nt; ++i) { const double e = std::fabs(vd(i) - y[size_t(i)]) / (std::max(ya[size_t(i)], vmag) + 1e-300); if(!(e <= worst_d)) { worst_d = e; wn = tv.first; } }
+#endif
           for(Index j = 0; j < ns; ++j) if(!(vs(j) == tv.second[size_t(j)])) worst_w = 1.0;
           c.count("matrix_free_transfers");
         }
         c.check(worst <= 1e-12, "transfer_intermesh_vector differs from the assembled matrix; " + what + "; " + key, [&]{ char b[120]; snprintf(b, sizeof b, "relative difference %.3e (%s vector)", worst, wn.c_str()); return std::string(b); });
+        c.check(worst_d <= 1e-12, "transfer_intermesh_vector_direct differs from the assembled matrix; " + what + "; " + key, [&]{ char b[120]; snprintf(b, sizeof b, "relative difference %.3e (%s vector)", worst_d, wn.c_str()); return std::string(b); });
         c.check(worst_w == 0.0, "transfer_intermesh_vector: weight vector / failed points / input vector; " + what + "; " + key, "weight is not the cell count, points failed, or the source vector was modified");
       }
       c.count("intermesh_matrices");
@@ -448,7 +463,7 @@ int main(int argc, char** argv)
     "target-to-source adjactor and matrix pattern are built by the harness from geometry and dof mappings (SymbolicAssembler::assemble_matrix_intermesh is not used: C16)",
     "adjactors are given in the current (permuted) cell numbering, as GridTransfer documents",
     "FEAT space evaluators / dof mappings are trusted (C15); Trafo::InverseMapping is part of the code under test here",
-    "OpenMP parallel execution of the inter-mesh routines is not explored (plain variant: one thread)",
+    "OpenMP parallel execution of the inter-mesh routines is not explored (plain variant: one thread)", "GridTransfer::transfer_intermesh_vector_direct does not compile when instantiated (calls a non-existing overload of its own name); recorded as observation (spec/proposed_fixes/C18-intermesh-vector-direct-does-not-compile.patch, not applied), the guarded call stays disabled (C18_HAVE_INTERMESH_VECTOR_DIRECT = 0)",
     "tolerances: exactness 2e-11 (4e-11 through the renumbering chain), left inverse 2e-10, matrix-free 1e-12 relative to max(|terms|, |v|); route comparisons bitwise"};
 
   static const ElemDesc L1 = {"Lagrange1", 1, false}, L2 = {"Lagrange2", 2, false}, L3 = {"Lagrange3", 3, false},
